@@ -358,6 +358,8 @@ class Interp(object):
             t = self.truth(e.test, env)
             if t is None:
                 raise AnalysisError('KINDS: undecided conditional expression `%s`' % norm_stmt(e))
+            if isinstance(env, dict):
+                env.setdefault('__path__', V('path', items=[])).items.append((e, t))     # a decision like an if statement's
             return self.val(e.body if t else e.orelse, env)
         if isinstance(e, ast.Attribute) and dotted(e) in ('self.channels', 'self._channels'):
             return V('channels')
